@@ -233,6 +233,8 @@ proof fn lemma_kc_le(kc: KeyCode)
         r.0 & 0xE000 == 0 || r.0 & 0xE000 == 0x2000,
         r.0 & 0xF000 == (match op { Or => 0x1000u16, And => 0x2000u16, Not => 0x3000u16 }),
         r.0 & 0x0FFF == end_idx,
+        // the word the encoding `enc` (A5) uses for an operator
+        r == bool_word(op, end_idx as int),
 //@@ before 1 `Self((end_idx & MAX_OPCODE_LEN)`
     proof { lemma_bits_bool(end_idx); }
 
@@ -1029,3 +1031,251 @@ spec fn fires<T>(c: (&[OpCode], &Action<T>, BreakOrFallthrough), env: Env) -> bo
                 self.env@.default_layer == self.default_layer,
                 forall|i: int| old(self).case_index <= i < self.case_index ==> !fires(#[trigger] self.cases@[i], self.env@),
             decreases self.cases@.len() - self.case_index,
+
+// =========================================================================================
+// A5: the array-level meaning `sem_top` agrees with the meaning of the WRITTEN expression tree
+// under the prefix encoding with absolute exclusive end indices (what the parser's switch
+// compiler is expected to emit).  This ties the oracle of A3 to "any nesting of and / or / not".
+// =========================================================================================
+//@ raw
+ghost enum Expr {
+    L1(OpCode),                       // one-word leaf
+    L2(OpCode, OpCode),               // two-word leaf
+    Op(BooleanOperator, Box<EList>),  // operator with its operand list
+}
+ghost enum EList {
+    Nil,
+    Cons(Box<Expr>, Box<EList>),
+}
+spec fn esize(e: Expr) -> nat
+    decreases e,
+{
+    match e { Expr::L1(_) => 1, Expr::L2(_, _) => 2, Expr::Op(_, l) => 1 + lsize(*l) }
+}
+spec fn lsize(l: EList) -> nat
+    decreases l,
+{
+    match l { EList::Nil => 0, EList::Cons(e, r) => esize(*e) + lsize(*r) }
+}
+spec fn op_word(op: BooleanOperator) -> u16 { match op { Or => 0x1000u16, And => 0x2000u16, Not => 0x3000u16 } }
+/// the word new_bool(op, end) builds
+spec fn bool_word(op: BooleanOperator, end: int) -> OpCode { OpCode(((end as u16) + op_word(op)) as u16) }
+spec fn enc(e: Expr, base: int) -> Seq<OpCode>
+    decreases e,
+{
+    match e {
+        Expr::L1(w) => seq![w],
+        Expr::L2(a, b) => seq![a, b],
+        Expr::Op(op, l) => seq![bool_word(op, base + 1 + lsize(*l))] + lenc(*l, base + 1),
+    }
+}
+spec fn lenc(l: EList, base: int) -> Seq<OpCode>
+    decreases l,
+{
+    match l {
+        EList::Nil => Seq::<OpCode>::empty(),
+        EList::Cons(e, r) => enc(*e, base) + lenc(*r, base + esize(*e)),
+    }
+}
+/// meaning of a written expression: or = some operand true, and = every, not = none
+spec fn esem(e: Expr, env: Env) -> bool
+    decreases e,
+{
+    match e {
+        Expr::L1(w) => leaf_val(seq![w], env, 0),
+        Expr::L2(a, b) => leaf_val(seq![a, b], env, 0),
+        Expr::Op(op, l) => match op { Or => lany(*l, env), And => lall(*l, env), Not => !lany(*l, env) },
+    }
+}
+spec fn lany(l: EList, env: Env) -> bool
+    decreases l,
+{
+    match l { EList::Nil => false, EList::Cons(e, r) => esem(*e, env) || lany(*r, env) }
+}
+spec fn lall(l: EList, env: Env) -> bool
+    decreases l,
+{
+    match l { EList::Nil => true, EList::Cons(e, r) => esem(*e, env) && lall(*r, env) }
+}
+/// the written expression is one the parser accepts: leaves are decodable leaf words, every
+/// operator has at least one operand, nesting at most d
+spec fn ewf(e: Expr, d: int) -> bool
+    decreases e,
+{
+    match e {
+        Expr::L1(w) => word_ok(w.0, None) && !is_two_word(w.0) && !is_boolop_word(w.0),
+        Expr::L2(a, _) => is_two_word(a.0),
+        Expr::Op(_, l) => d > 0 && !(*l is Nil) && lwf(*l, d - 1),
+    }
+}
+spec fn lwf(l: EList, d: int) -> bool
+    decreases l,
+{
+    match l { EList::Nil => true, EList::Cons(e, r) => ewf(*e, d) && lwf(*r, d) }
+}
+
+proof fn lemma_sizes(e: Expr, b: int)
+    ensures esize(e) >= 1, enc(e, b).len() == esize(e),
+    decreases e,
+{
+    match e {
+        Expr::Op(_, l) => { lemma_lsizes(*l, b + 1); }
+        _ => {}
+    }
+}
+proof fn lemma_lsizes(l: EList, b: int)
+    ensures lenc(l, b).len() == lsize(l),
+    decreases l,
+{
+    match l {
+        EList::Cons(e, r) => { lemma_sizes(*e, b); lemma_lsizes(*r, b + esize(*e)); }
+        _ => {}
+    }
+}
+
+/// `ops` contains the encoding of list l at offset base
+spec fn embeds(ops: Seq<OpCode>, base: int, l: EList) -> bool {
+    0 <= base && base + lsize(l) <= ops.len() && ops.subrange(base, base + lsize(l)) == lenc(l, base)
+}
+spec fn embeds_e(ops: Seq<OpCode>, base: int, e: Expr) -> bool {
+    0 <= base && base + esize(e) <= ops.len() && ops.subrange(base, base + esize(e)) == enc(e, base)
+}
+
+proof fn lemma_embed_split(ops: Seq<OpCode>, base: int, e: Expr, r: EList)
+    requires embeds(ops, base, EList::Cons(Box::new(e), Box::new(r))),
+    ensures embeds_e(ops, base, e), embeds(ops, base + esize(e), r),
+{
+    let l = EList::Cons(Box::new(e), Box::new(r));
+    lemma_sizes(e, base);
+    lemma_lsizes(r, base + esize(e));
+    let whole = ops.subrange(base, base + lsize(l));
+    assert(whole == enc(e, base) + lenc(r, base + esize(e)));
+    assert(ops.subrange(base, base + esize(e)) =~= whole.subrange(0, esize(e) as int));
+    assert(whole.subrange(0, esize(e) as int) =~= enc(e, base));
+    assert(ops.subrange(base + esize(e), base + esize(e) + lsize(r)) =~= whole.subrange(esize(e) as int, lsize(l) as int));
+    assert(whole.subrange(esize(e) as int, lsize(l) as int) =~= lenc(r, base + esize(e)));
+}
+proof fn lemma_embed_op(ops: Seq<OpCode>, base: int, op: BooleanOperator, l: EList)
+    requires embeds_e(ops, base, Expr::Op(op, Box::new(l))),
+    ensures ops[base] == bool_word(op, base + 1 + lsize(l)), embeds(ops, base + 1, l),
+{
+    let e = Expr::Op(op, Box::new(l));
+    lemma_lsizes(l, base + 1);
+    let whole = ops.subrange(base, base + esize(e));
+    assert(whole == seq![bool_word(op, base + 1 + lsize(l))] + lenc(l, base + 1));
+    assert(whole[0] == bool_word(op, base + 1 + lsize(l)));
+    assert(whole[0] == ops[base]);
+    assert(ops.subrange(base + 1, base + 1 + lsize(l)) =~= whole.subrange(1, esize(e) as int));
+    assert(whole.subrange(1, esize(e) as int) =~= lenc(l, base + 1));
+}
+
+proof fn lemma_decode_one_word(wd: u16, n1: Option<OpCode>, n2: Option<OpCode>)
+    requires !is_two_word(wd), word_ok(wd, n1),
+    ensures spec_decode(wd, n1) == spec_decode(wd, n2), word_ok(wd, n2),
+{
+}
+
+/// one written expression e, encoded at offset base inside ops
+proof fn lemma_tree_expr(ops: Seq<OpCode>, env: Env, base: int, e: Expr, d: int)
+    requires embeds_e(ops, base, e), ewf(e, d), ops.len() < 0x1000,
+    ensures
+        step(ops, base) == base + esize(e),
+        base < base + esize(e) <= ops.len(),
+        word_ok(w(ops, base), nxt(ops, base)),
+        is_op(ops, base) == (e is Op),
+        !(e is Op) ==> leaf_width(ops, base) == esize(e),
+        e is Op ==> d > 0 && base + 1 < op_end(ops, base) && wf_list(ops, base + 1, op_end(ops, base), d - 1),
+        opval(ops, env, base) == esem(e, env),
+    decreases e,
+{
+    lemma_sizes(e, base);
+    let whole = ops.subrange(base, base + esize(e));
+    assert(whole == enc(e, base));
+    assert(whole[0] == ops[base]);
+    match e {
+        Expr::L1(wd) => {
+            assert(ops[base] == wd);
+            lemma_decode_one_word(wd.0, None, nxt(ops, base));
+            lemma_decode_one_word(wd.0, None, nxt(seq![wd], 0));
+            lemma_opval_leaf(ops, env, base);
+            assert(leaf_val(ops, env, base) == leaf_val(seq![wd], env, 0));
+        }
+        Expr::L2(a, b) => {
+            assert(whole[1] == ops[base + 1]);
+            assert(ops[base] == a && ops[base + 1] == b);
+            lemma_bits_classes(a.0);
+            assert(nxt(ops, base) == Some(b));
+            assert(nxt(seq![a, b], 0) == Some(b));
+            assert(!is_op(ops, base));
+            lemma_opval_leaf(ops, env, base);
+            assert(leaf_val(ops, env, base) == leaf_val(seq![a, b], env, 0));
+        }
+        Expr::Op(op, l) => {
+            lemma_embed_op(ops, base, op, *l);
+            lemma_lsizes(*l, base + 1);
+            let end = base + 1 + lsize(*l);
+            assert(end <= ops.len());
+            lemma_bits_bool(end as u16);
+            let wd = bool_word(op, end).0;
+            assert(w(ops, base) == wd);
+            lemma_bits_classes(wd);
+            assert(is_boolop_word(wd));
+            assert(op_end(ops, base) == end);
+            assert(op_kind(ops, base) == op);
+            assert(lsize(*l) >= 1) by {
+                match *l { EList::Cons(e0, _) => { lemma_sizes(*e0, 0); } EList::Nil => {} }
+            }
+            lemma_tree_list(ops, env, base + 1, *l, d - 1);
+            lemma_opval_op(ops, env, base);
+        }
+    }
+}
+
+/// a written operand list l, encoded at offset base inside ops
+proof fn lemma_tree_list(ops: Seq<OpCode>, env: Env, base: int, l: EList, d: int)
+    requires embeds(ops, base, l), lwf(l, d), ops.len() < 0x1000,
+    ensures
+        wf_list(ops, base, base + lsize(l), d),
+        ev(ops, env, 0, base, base + lsize(l)) == lany(l, env),
+        ev(ops, env, 1, base, base + lsize(l)) == lall(l, env),
+    decreases l,
+{
+    match l {
+        EList::Nil => {
+            reveal_with_fuel(ev, 1);
+        }
+        EList::Cons(e, r) => {
+            lemma_embed_split(ops, base, *e, *r);
+            lemma_sizes(*e, base);
+            lemma_tree_expr(ops, env, base, *e, d);
+            let q = base + esize(*e);
+            let end = base + lsize(l);
+            lemma_tree_list(ops, env, q, *r, d);
+            assert(q + lsize(*r) == end);
+            // one unfolding of wf_list and of ev at base
+            assert(wf_list(ops, base, end, d));
+            lemma_and_single(ops, env, base);
+            assert(reach(ops, base, q)) by { reveal_with_fuel(reach, 2); }
+            lemma_wf_reach(ops, q, end, d);
+            lemma_split(ops, env, 0, base, q, end);
+            lemma_split(ops, env, 1, base, q, end);
+        }
+    }
+}
+
+/// A5, the statement: for every accepted written condition (a list of expressions with an implicit
+/// `or`), the opcode stream the compiler is expected to emit satisfies the evaluator's precondition,
+/// and the array-level meaning used in A3 is the meaning of the written condition.
+proof fn theorem_written_condition(l: EList, env: Env)
+    requires lwf(l, 8), lsize(l) < 0x1000,
+    ensures ({
+        let ops = lenc(l, 0);
+        &&& wf_list(ops, 0, ops.len() as int, 8)
+        &&& sem_top(ops, env) == (l is Nil || lany(l, env))
+    }),
+{
+    let ops = lenc(l, 0);
+    lemma_lsizes(l, 0);
+    assert(ops.subrange(0, ops.len() as int) =~= ops);
+    lemma_tree_list(ops, env, 0, l, 8);
+}
